@@ -76,14 +76,18 @@ def fieldOf (fs : List PField) (k : S) : Option String :=
 
 def hexDigit (n : Nat) : Nat := if n < 10 then 48 + n else 87 + n
 
-/-- JSON string body: `"` `\` and control characters escaped, everything else verbatim -/
-def escJson : S → S
-  | [] => []
-  | c :: cs =>
-    (if c == 34 then [92, 34]
-     else if c == 92 then [92, 92]
-     else if c < 32 then [92, 117, 48, 48, hexDigit (c / 16), hexDigit (c % 16)]
-     else [c]) ++ escJson cs
+/-- JSON string body: `"` `\` and control characters escaped, everything else verbatim
+(accumulator-passing: documents hold sequences of several million letters) -/
+def escJsonAux : S → S → S
+  | [], acc => acc.reverse
+  | c :: cs, acc =>
+    escJsonAux cs
+      (if c == 34 then 34 :: 92 :: acc
+       else if c == 92 then 92 :: 92 :: acc
+       else if c < 32 then hexDigit (c % 16) :: hexDigit (c / 16) :: 48 :: 48 :: 117 :: 92 :: acc
+       else c :: acc)
+
+def escJson (s : S) : S := escJsonAux s []
 
 def quoteJson (s : S) : S := 34 :: (escJson s ++ [34])
 
